@@ -18,9 +18,10 @@ var all21 = []string{
 }
 
 // makeSys builds the system of container kind c.
-//   n    live bound          u    universe size     cmp/vcmp comparator names
-//   cap  ring capacity       m    B-tree order      rank=1 rank-abstract keys (trees)
-//   elem "int" (default) | "str": element / key / value type
+//
+//	n    live bound          u    universe size     cmp/vcmp comparator names
+//	cap  ring capacity       m    B-tree order      rank=1 rank-abstract keys (trees)
+//	elem "int" (default) | "str": element / key / value type
 func makeSys(c string, j Job) Sys {
 	n, u := j.p("n", 4), j.p("u", 3)
 	cmpN := j.s("cmp", "nat")
@@ -33,8 +34,13 @@ func makeSys(c string, j Job) Sys {
 	if cmpN == "rev" {
 		hc = "max"
 	}
+	deep := j.p("deep", 0) == 1
+	valCmps := map[string]func(a, b Val) int{"nat": func(a, b Val) int { return int(a - b) }, "rev": func(a, b Val) int { return int(b - a) }, "coarse": func(a, b Val) int { return int(a/2 - b/2) }}
 	switch c {
 	case "arraylist", "singlylinkedlist", "doublylinkedlist":
+		if deep {
+			return &ListSys[Val]{Kind: c, Absent: -1, Poison: -99, N: n, Gen: func(i int) Val { return Val(i) }, Cmps: valCmps}
+		}
 		if str {
 			return &ListSys[string]{Kind: c, U: strU(u), Absent: "zz", Poison: "POISON", N: n,
 				Cmps: map[string]func(a, b string) int{"nat": strCmp("nat"), "rev": strCmp("rev"), "coarse": strCmp("coarse")}}
@@ -51,18 +57,24 @@ func makeSys(c string, j Job) Sys {
 		}
 		return intSetSys(c, cmpN, u)
 	case "arraystack", "linkedliststack", "arrayqueue", "linkedlistqueue", "circularbuffer":
+		if deep {
+			return &SeqSys[Val]{Kind: c, Cap: j.p("cap", 3), N: n, Poison: -99, Gen: func(i int) Val { return Val(i) }}
+		}
 		if str {
 			return &SeqSys[string]{Kind: c, Cap: j.p("cap", 3), N: n, Poison: "POISON", U: strU(u)}
 		}
-		return &SeqSys[int]{Kind: c, Cap: j.p("cap", 3), N: n, Poison: -99, U: intRange(1, u)}
+		return &SeqSys[int]{Kind: c, Cap: j.p("cap", 3), N: n, Poison: -99, U: intU(u)}
 	case "priorityqueue", "binaryheap":
+		if deep { // one priority, one id: the state is (length, capacity); sizes past every threshold
+			return heSysIDs(c, hc, n, 1, 0, 1)
+		}
 		if str {
 			return scalarHeapSys[string](c, hc, n, strU(u), "POISON", j.p("jsonlen", 2))
 		}
 		if j.s("elem", "") == "int" {
-			return scalarHeapSys[int](c, hc, n, intRange(1, u), -99, j.p("jsonlen", 2))
+			return scalarHeapSys[int](c, hc, n, intU(u), -99, j.p("jsonlen", 2))
 		}
-		return heSys(c, hc, n, j.p("pmax", 2), j.p("jsonlen", 2))
+		return heSysIDs(c, hc, n, j.p("pmax", 2), j.p("jsonlen", 2), j.p("ids", 2))
 	case "hashmap", "treemap", "linkedhashmap", "hashbidimap", "treebidimap", "rbt", "avl", "btree":
 		if str {
 			ku := strU(u)
